@@ -468,7 +468,9 @@ class Client:
             login = login.encode("utf-8")
         if isinstance(password, str):
             password = password.encode("utf-8")
-        token = b"n,a=" + login + b",\001auth=Bearer " + password + b"\001\001"
+        # RFC 7628, section 3.1: "," and "=" are escaped in the identity
+        user = login.replace(b"=", b"=3D").replace(b",", b"=2C")
+        token = b"n,a=" + user + b",\001auth=Bearer " + password + b"\001\001"
         token = base64.b64encode(token)
         code, data = self.__send_command("AUTHENTICATE", [b"OAUTHBEARER", token])
         if code == "OK":
